@@ -682,6 +682,27 @@ impl Shape {
         let sep = *cx.rng.pick(&[" ", " ", "-", ", ", " - ", ".", "\t"]);
         let w0 = if cx.rng.chance(1, 3) { format!("{} ", gen::any_word(&mut cx.rng, lang)) } else { String::new() };
         let title = format!("{}{}{}{}", w0, w1, sep, w2);
+        // one case in eight (languages with function words): a function word, and further right a proper prefix of it followed
+        // directly by a symbol that belongs to no word (fro' after "from"); typed: that prefix, the symbol and an ending - a query
+        // word that matches the function word, and the prefix together with what follows it
+        let fws: Vec<&'static str> = crate::props::ranking::function_words(lang).into_iter().filter(|f| f.chars().count() >= 3).collect();
+        let mut special: Option<Vec<String>> = None;
+        let title = if (cx.idx / 12) % 8 == 5 && !fws.is_empty() {
+            let f: Vec<char> = cx.rng.pick(&fws).chars().collect();
+            let k = cx.rng.range(2, f.len() - 1);
+            let w = s(&f[..k]);
+            let c = *cx.rng.pick(&["'", "$", "\u{2019}", "#", "''", "'$"]);
+            let y = gen::rand_word(&mut cx.rng, &alpha, 2, 4);
+            let z = gen::rand_word(&mut cx.rng, &alpha, 3, 6);
+            let mut ends: Vec<String> = gen::suffixes(lang).iter().map(|x| x.to_string()).collect();
+            ends.push("s".to_string());
+            let e1 = cx.rng.pick(&ends).clone();
+            special = Some(vec![format!("{}{}s", w, c), format!("{}{}{}", w, c, e1), format!("{}{}", w, c), format!("{}{}{}", w, c, y.chars().next().unwrap_or('a')), format!("{}{} {}", w, c, y), format!("{}{}", s(&f), c)]);
+            cx.count("titles with a function word and, further right, a prefix of it followed by a symbol");
+            format!("{}{} {}{} {} {}", w0, s(&f), w, c, y, z)
+        } else {
+            title
+        };
         let st = St::build_sentinel(lang, &[(1, title.clone(), 3)], 10);
         let tok = st.tok_record(&title);
         if tok.words.len() < 2 {
@@ -691,13 +712,22 @@ impl Shape {
         let mut joined: Vec<char> = word_chars(&tok, n - 2).to_vec();
         let l1 = joined.len();
         joined.extend_from_slice(word_chars(&tok, n - 1));
-        for k in (l1 + 1)..=joined.len() {
-            for typos in 0..4 {
-                let mut q: Vec<char> = joined[..k].to_vec();
-                for _ in 0..typos {
-                    q = gen::rand_edit(&mut cx.rng, &q, &alpha);
+        let mut plan: Vec<(String, usize)> = vec![];
+        if let Some(sp) = &special {
+            plan = sp.iter().map(|q| (q.clone(), 0usize)).collect();
+        } else {
+            for k in (l1 + 1)..=joined.len() {
+                for typos in 0..4 {
+                    let mut q: Vec<char> = joined[..k].to_vec();
+                    for _ in 0..typos {
+                        q = gen::rand_edit(&mut cx.rng, &q, &alpha);
+                    }
+                    plan.push((s(&q), typos));
                 }
-                let qs = s(&q);
+            }
+        }
+        {
+            for (qs, typos) in plan {
                 cx.ctx(format!("joined lang={} title={:?} q={:?}", lang, title, qs));
                 let hits = st.search(&qs);
                 let tq = st.tok_query(&qs);
